@@ -289,6 +289,75 @@ Definition id_key (l : list kv) : list kv := l.
 Definition spec_run (c : cfg) (regs : list (bytes * list bytes * list row)) (ops : list op) : list out :=
   run (list kv) tuple_eqb id_key c (register_all (list kv) tuple_eqb id_key regs) ops.
 
+(* ---------- the JOIN clause as written: rsql/parser.go parseJoin / stripAliasPrefix,
+              stream/stream.go JoinKeyFields, streamsql.go RegisterTable ----------
+   "[INNER|LEFT [OUTER]] JOIN table [[AS] alias] ON f = f [AND f = f]...", each f "name" or "q.name". *)
+Record onfield := { f_qual : option bytes; f_name : bytes }.
+Record jtext := { jt_table : bytes; jt_left : bool; jt_alias : option bytes;
+                  jt_on : list (onfield * onfield) (* (left of =, right of =) in textual order *) }.
+Record qtext := { q_src_alias : option bytes; q_joins : list jtext }.
+
+Definition qual_is (q : bytes) (a : option bytes) : bool :=
+  match a with Some x => bytes_eqb q x | None => false end.
+(* parseJoin: "if jc.Alias == "" { jc.Alias = jc.Table }" runs BEFORE the ON pairs are read, so an
+   un-aliased table is addressed by its own name in ON as well as in SELECT / WHERE *)
+Definition eff_alias (j : jtext) : bytes := match jt_alias j with Some a => a | None => jt_table j end.
+(* stripAliasPrefix(field, streamAlias, tableAlias) *)
+Definition strip_alias (sa : option bytes) (ta : bytes) (f : onfield) : bytes :=
+  match f_qual f with
+  | None => f_name f
+  | Some q => if qual_is q sa || bytes_eqb q ta then f_name f else q ++ dot :: f_name f
+  end.
+(* the code: the field left of "=" is the stream field, the field right of it the table field *)
+Definition on_pair_code (sa : option bytes) (ta : bytes) (p : onfield * onfield) : bytes * bytes :=
+  (strip_alias sa ta (fst p), strip_alias sa ta (snd p)).
+Definition parse_join_code (sa : option bytes) (j : jtext) : jcfg :=
+  {| j_table := jt_table j; j_left := jt_left j; j_alias := eff_alias j;
+     j_pairs := map (on_pair_code sa (eff_alias j)) (jt_on j) |}.
+Definition parse_code (q : qtext) : cfg :=
+  {| c_src_alias := q_src_alias q; c_joins := map (parse_join_code (q_src_alias q)) (q_joins q) |}.
+
+(* the meaning of the clause: "=" is symmetric, a field belongs to the side its qualifier names
+   (the comment of stripAliasPrefix: "which side a pair belongs to is determined by which alias it
+   carries"); without a deciding qualifier the textual order stands (stream = table) *)
+Definition table_side (sa : option bytes) (ta : bytes) (f : onfield) : bool :=
+  match f_qual f with Some q => bytes_eqb q ta && negb (qual_is q sa) | None => false end.
+Definition stream_side (sa : option bytes) (ta : bytes) (f : onfield) : bool :=
+  match f_qual f with Some q => qual_is q sa && negb (bytes_eqb q ta) | None => false end.
+Definition swapped (sa : option bytes) (ta : bytes) (p : onfield * onfield) : bool :=
+  (table_side sa ta (fst p) && negb (table_side sa ta (snd p))) ||
+  (stream_side sa ta (snd p) && negb (stream_side sa ta (fst p))).
+Definition on_pair_spec (sa : option bytes) (ta : bytes) (p : onfield * onfield) : bytes * bytes :=
+  if swapped sa ta p then on_pair_code sa ta (snd p, fst p) else on_pair_code sa ta p.
+Definition parse_join_spec (sa : option bytes) (j : jtext) : jcfg :=
+  {| j_table := jt_table j; j_left := jt_left j; j_alias := eff_alias j;
+     j_pairs := map (on_pair_spec sa (eff_alias j)) (jt_on j) |}.
+Definition parse_spec (q : qtext) : cfg :=
+  {| c_src_alias := q_src_alias q; c_joins := map (parse_join_spec (q_src_alias q)) (q_joins q) |}.
+Definition well_oriented (q : qtext) : bool :=
+  forallb (fun j => forallb (fun p => negb (swapped (q_src_alias q) (eff_alias j) p)) (jt_on j)) (q_joins q).
+
+(* Stream.JoinKeyFields: the table-side fields of the first JOIN that references the table *)
+Fixpoint join_key_fields (js : list jcfg) (name : bytes) : option (list bytes) :=
+  match js with
+  | [] => None
+  | j :: js' => if bytes_eqb (j_table j) name then Some (map snd (j_pairs j)) else join_key_fields js' name
+  end.
+(* Streamsql.RegisterTable(name, rows, keyFields...): no keyFields = derive them from ON
+   (a table no JOIN references is an error there; the harness never registers one) *)
+Definition reg_call := (bytes * option (list bytes) * list row)%type.
+Definition resolve_reg (c : cfg) (r : reg_call) : bytes * list bytes * list row :=
+  match r with
+  | (name, Some keys, rows) => (name, keys, rows)
+  | (name, None, rows) => (name, match join_key_fields (c_joins c) name with Some k => k | None => [] end, rows)
+  end.
+(* a whole case from the SQL text: the code-level model parses as the code does, the abstract
+   specification by the meaning of the clause *)
+Definition model_run_sql (q : qtext) (regs : list reg_call) (ops : list op) : list out :=
+  let c := parse_code q in model_run c (map (resolve_reg c) regs) ops.
+Definition spec_run_sql (q : qtext) (regs : list reg_call) (ops : list op) : list out :=
+  let c := parse_spec q in spec_run c (map (resolve_reg c) regs) ops.
+
 (* ---------- projection of the working map (SELECT list with qualified columns) and WHERE ----------
    The projection and expression evaluators themselves are C05/C06's subject; this is the part the
    JOIN statement needs: "alias.col" reads the column of the row bound to the alias, NULL if the
